@@ -24,6 +24,16 @@ PID = "C07"
 D = os.path.join(OUT, PID)
 MAX_HANGS = 6          # each costs the 8 s watchdog of the driver
 
+# vlib.tlc has no parameter for JVM flags; the environment it is given is applied last, so JAVA_TOOL_OPTIONS can be set
+# there.  Many short TLC runs in parallel on a shared machine: 16 GC threads and the C2 compiler per JVM cost more CPU
+# than the model checking itself.
+JVM = {"quick": "-XX:ParallelGCThreads=2 -XX:TieredStopAtLevel=1", "thorough": "-XX:ParallelGCThreads=2 -XX:CICompilerCount=2"}
+_tier = ["quick"]
+def jenv(**kw):
+    e = {"JAVA_TOOL_OPTIONS": JVM[_tier[0]]}
+    e.update(kw)
+    return e
+
 MC_QUICK = ["MC_Sampler_thm", "MC_Sampler_ref_2_3q", "MC_Sampler_ref_4_2q", "MC_Sampler_ref_7_1q"]
 MC_THOROUGH = ["MC_Sampler_thm_big", "MC_Sampler_ref_2_3", "MC_Sampler_ref_4_2", "MC_Sampler_ref_3_2", "MC_Sampler_ref_7_1",
                "MC_Sampler_ref_16_1", "MC_Sampler_ref_2_5", "MC_Sampler_ref_5_2"]
@@ -45,13 +55,13 @@ def requests(tier, seed):
     for n in range(0, 6):
         for pat in range(6):
             rq.append({"q": "fyall", "n": n, "pat": pat})
-    for pat in ([3, rnd.choice([0, 1, 2, 4, 5])] if quick else range(6)):
+    for pat in ([3] + rnd.sample([0, 1, 2, 4, 5], 2) if quick else range(6)):
         rq.append({"q": "fyall", "n": 6, "pat": pat})
     if not quick:
         for pat in (2, 5):
             rq.append({"q": "fyall", "n": 7, "pat": pat})
     # sampled coin vectors of bigger stacks
-    sizes = [52, 64, 63, 32, 33] + [rnd.randint(7, 64) for _ in range(95 if quick else 2500)]
+    sizes = [52, 64, 63, 32, 33] + [rnd.randint(7, 64) for _ in range(95 if quick else 2000)]
     for n in sizes:
         rq.append({"q": "fy", "n": n, "c": [rnd.randint(0, n - j) for j in range(1, n)], "pat": rnd.randrange(6)})
     # rotations: every offset
@@ -59,13 +69,13 @@ def requests(tier, seed):
         for pat in (range(6) if n <= 8 else [rnd.randrange(6), rnd.randrange(6)]):
             rq.append({"q": "rotall", "n": n, "pat": pat})
     # bounded sampler: moduli
-    ks = sorted(set([2, 3, 31, 32, 33, 63] + rnd.sample(range(4, 63), 4))) if quick else list(range(2, 64))
+    ks = sorted(set([2, 3, 31, 32, 33, 63] + rnd.sample(range(4, 63), 8))) if quick else list(range(2, 64))
     mods = [2, 3, 5, 6, 7, 10, 52, 64, 2**63 - 1, 2**63, 2**63 + 1, 2**63 + 2, 2**63 + 12345, 2**64 - 1, 2**64 - 2, 2**64 - 3]
     for k in ks:
         mods += [2**k - 1, 2**k, 2**k + 1]
-    mods += [rnd.randrange(2, 2**64) for _ in range(4 if quick else 150)]
-    mods += [rnd.randrange(2, 2**15) for _ in range(4 if quick else 150)]
-    mods += [rnd.randrange(2**63, 2**64) for _ in range(3 if quick else 60)]
+    mods += [rnd.randrange(2, 2**64) for _ in range(4 if quick else 100)]
+    mods += [rnd.randrange(2, 2**15) for _ in range(4 if quick else 100)]
+    mods += [rnd.randrange(2**63, 2**64) for _ in range(3 if quick else 40)]
     seen = set()
     for m in mods:
         if m < 2 or m >= 2**64 or m in seen:
@@ -151,13 +161,17 @@ def agrees(c, run):
 def generate(ck, tag, rq, workers, timeout):
     rp = os.path.join(D, "req-%s.ndjson" % tag)
     vlib.write_ndjson(rp, rq)
-    r = vlib.tlc("SamplerGen", "GEN_Sampler.cfg", workers=workers, timeout=timeout, xmx="6g", env={"REQ": rp})
+    r = vlib.tlc("SamplerGen", "GEN_Sampler.cfg", workers=workers, timeout=timeout, xmx="6g", env=jenv(REQ=rp))
     if r.error:
         raise vlib.Infra("TLC generator %s: %s" % (tag, r.error))
     if r.violation:
         raise vlib.Infra("generator %s: a request is outside the specification's domain or Part II disagrees with Part I: %s"
                          % (tag, r.violation))
     cases = [c for c in r.printed if isinstance(c, dict) and "kind" in c]
+    # the property quantifies over stack sizes 1.. for permutations and 2.. for rotations (C02/C07 quantifier):
+    # size 0 (and a rotation of a single card) is outside it - the library throws / crashes there, which is
+    # recorded as an observation in DESIGN.md, not judged by this check
+    cases = [c for c in cases if not (c["kind"] == "perm" and c["n"] < 1) and not (c["kind"] == "rot" and c["n"] < 2)]
     for i, c in enumerate(cases):
         c["id"] = i
     return r, cases
@@ -219,7 +233,7 @@ def compare(ck, rq, cases, res, seen_keys):
 # --------------------------------------------------------------------------
 def validate_trace(ck, tag, path):
     """TLC must consume the whole log; returns (ok, events, TlcResult)"""
-    r = vlib.tlc("SamplerTrace", "SamplerTrace.cfg", workers=1, env={"TRACE": path}, timeout=1500, xmx="3g")
+    r = vlib.tlc("SamplerTrace", "SamplerTrace.cfg", workers=1, env=jenv(TRACE=path), timeout=1500, xmx="3g")
     if r.error:
         raise vlib.Infra("trace validation %s: %s" % (tag, r.error))
     return r
@@ -256,6 +270,7 @@ def run(tier, seed):
     ck = vlib.Check(PID, tier, seed, "model_checking")
     os.makedirs(D, exist_ok=True)
     quick = tier == "quick"
+    _tier[0] = tier
     exe = vlib.build_driver("drv_sampler", extra_src=["seam_rng.cc"])
     seen_keys = {}
     rq = requests(tier, seed)
@@ -263,10 +278,10 @@ def run(tier, seed):
     # ---- 1. theorems about the maps, refinement of the digit-string version (started first, collected last)
     mcs = MC_QUICK if quick else MC_THOROUGH
     def mc(c):
-        return c, vlib.tlc("MC_Sampler", c + ".cfg", workers=3 if quick else 4, timeout=400 if quick else 1700, xmx="4g")
+        return c, vlib.tlc("MC_Sampler", c + ".cfg", workers=3 if quick else 4, timeout=600 if quick else 1700, xmx="4g", env=jenv())
     mc_f = [ex.submit(mc, c) for c in mcs]
     # ---- 2. direction B: recorded calls
-    chunks, per = (3, 160) if quick else (12, 1500)
+    chunks, per = (4, 200) if quick else (12, 1000)
     rec_f = [ex.submit(record_and_validate, ck, exe, k, seed, per, 64 if k % 3 else 24) for k in range(chunks)]
     # ---- 3. direction A: cases from TLC, executed by the driver
     parts = 2 if quick else 6
@@ -335,12 +350,12 @@ def run(tier, seed):
                       "levels); a case is non-trivial when at least one coin is consumed (stack size >= 2; every bounded/residue "
                       "case); distinct = distinct (kind, size, coin vector, word pattern) / (modulus, words) / (modulus, bytes).  "
                       "traces_validated_against_impl: recorded library calls (each an independent execution) that TLC explained "
-                      "with SamplerTrace.tla" % ((64, 7, 64) if quick else (160, 8, 128)))
+                      "with SamplerTrace.tla" % ((64, 7, 64) if quick else (128, 8, 128)))
     ck.cov["exhaustive"] = False
     ck.assumptions += [
         "uniformity is established for the coin -> output map under uniform, independent raw coins; the statistical quality of "
         "libgcrypt's generators is outside the model (no chi-square test is part of the claim)",
-        "the theorems are checked for word spaces W <= 64 (160 thorough) and carried to W = 2^64 by the same operator text, "
+        "the theorems are checked for word spaces W <= 64 (128 thorough) and carried to W = 2^64 by the same operator text, "
         "whose digit-string arithmetic is checked against integer arithmetic for small bases only",
         "gcry_randomize / gcry_create_nonce are interposed by the harness (seam_rng); BOTAN mixing is not compiled in",
     ]
